@@ -105,6 +105,9 @@ def step (st : Unit) (j : Json) : Except String (Unit × Json × List Fired) := 
     let ierr ← jbool out "err"
     let itick ← jnat out "tick"
     let m := Tick.priceToTick price
+    -- the hypothesis of price_to_tick_largest_partial, evaluated on every sampled price
+    if price ≠ 0 && !Tick.approxOK price then
+      fired := fired ++ [{ name := "tick_approximation_not_within_one", detail := mkObj [("price", jn price), ("approx", ji (Tick.approxTick price))] }]
     if !ierr then
       if !tickSpecOK price ((itick : Int) - Tick.offset) then
         fired := fired ++ [{ name := "tick_not_largest_with_price_le", detail := mkObj [("price", jn price), ("tick", jn itick)] }]
